@@ -49,13 +49,15 @@ func TestC05(t *testing.T) {
 func TestC06(t *testing.T) {
 	runProp(t, "C06", func(t *rapid.T) *core.Case {
 		p := gen.Profile{MaxDepth: 3}
-		switch rapid.IntRange(0, 3).Draw(t, "c06focus") {
+		switch rapid.IntRange(0, 4).Draw(t, "c06focus") {
 		case 0:
 			p.Focus = "func"
 		case 1:
 			p.Focus = "unary"
 		case 2:
 			p.Focus = "vector"
+		case 3:
+			p.Focus = "hist"
 		default:
 			p.Focus = "scalar"
 		}
